@@ -24,6 +24,28 @@
 #include "cmi_config.h"
 #include "cmi_memutils.h"
 
+#ifdef CIMBA_VERIF
+/*
+ * Verification hook H1 (guard CIMBA_VERIF): tell AddressSanitizer about stack
+ * switches. Compiled in only when the guard is defined AND the translation unit
+ * is built with -fsanitize=address.
+ */
+#if defined(__SANITIZE_ADDRESS__)
+#define CMI_VERIF_ASAN 1
+#elif defined(__has_feature)
+#if __has_feature(address_sanitizer)
+#define CMI_VERIF_ASAN 1
+#endif
+#endif
+#ifdef CMI_VERIF_ASAN
+extern void __sanitizer_start_switch_fiber(void **fake_stack_save,
+                                           const void *bottom, size_t size);
+extern void __sanitizer_finish_switch_fiber(void *fake_stack_save,
+                                            const void **bottom_old,
+                                            size_t *size_old);
+#endif
+#endif /* CIMBA_VERIF */
+
 /* The main and current coroutine pointers */
 CMB_THREAD_LOCAL struct cmi_coroutine *coroutine_main = NULL;
 CMB_THREAD_LOCAL struct cmi_coroutine *coroutine_current = NULL;
@@ -249,7 +271,25 @@ extern void *cmi_coroutine_transfer(struct cmi_coroutine *to, void *msg)
     /* The actual context switch happens in assembly */
     void **fromstk = (void **)&(from->stack_pointer);
     void **tostk = (void **)&(to->stack_pointer);
+#if defined(CIMBA_VERIF) && defined(CMI_VERIF_ASAN)
+    void *verif_fake_stack = NULL;
+    if (to->stack != NULL) {
+        __sanitizer_start_switch_fiber((from->status == CMI_COROUTINE_FINISHED)
+                                           ? NULL : &verif_fake_stack,
+                                       to->stack,
+                                       (size_t)(to->stack_base - to->stack));
+    }
+    else {
+        __sanitizer_start_switch_fiber((from->status == CMI_COROUTINE_FINISHED)
+                                           ? NULL : &verif_fake_stack,
+                                       to->stack_limit,
+                                       (size_t)(to->stack_base - to->stack_limit));
+    }
+#endif
     void *ret = cmi_coroutine_context_switch(fromstk, tostk, msg);
+#if defined(CIMBA_VERIF) && defined(CMI_VERIF_ASAN)
+    __sanitizer_finish_switch_fiber(verif_fake_stack, NULL, NULL);
+#endif
 
     /* Possibly much later, when control has returned here again */
     cmb_assert_debug(cmi_coroutine_stack_valid(to));
